@@ -33,6 +33,18 @@ class Inconclusive(Exception):
     """A case could not be decided (liveness guard, budget) - never a violation."""
 
 
+def sut_raised(exc):
+    """True when the innermost frame of the exception lies in the code under test (and not in the harness):
+    an exception that a valid operation of the library lets escape, as opposed to a bug of the check"""
+    import vlib
+    tb = exc.__traceback__
+    last = None
+    while tb is not None:
+        last = tb.tb_frame.f_code.co_filename
+        tb = tb.tb_next
+    return bool(last) and os.path.abspath(last).startswith(os.path.abspath(vlib.SRC))
+
+
 class Outcome:
     __slots__ = ("disc", "labels", "nontrivial", "info", "digest_extra")
 
